@@ -264,11 +264,7 @@ theorem new_some_t (t : Array Int) (rows : Array Nat) (p : Array (Int × Int)) :
     have hz : (jitrestrict #[] (pairsSt p) (pairsEn p) (pairs_size p)).size ≤ 0 := by
       simpa using (restrict_in_bounds #[] (pairsSt p) (pairsEn p) (pairs_size p)).2
     simp [gatherI, Array.eq_empty_of_size_eq_zero (Nat.le_zero.1 hz)]
-  · simp only [h0, if_false]
-    split
-    · rename_i hz
-      simp [gatherI, Array.eq_empty_of_size_eq_zero hz]
-    · rfl
+  · simp [h0]
 
 /-- **constructing with `time_support = ep` selects the same samples as constructing without and then restricting** -/
 theorem new_support_eq_restrict (t : Array Int) (rows : Array Nat) (p : Array (Int × Int)) (hp : C01.CanonicalPairs p) :
